@@ -184,4 +184,35 @@ theorem once_deterministic (v : Nat) (n : Nat) (schedule : List Nat) :
   have := key schedule _ (inv_init v n)
   exact this.2.2
 
+/-! ## the run-wide position space
+
+Which other packages are analysed in the same run, and in which order the loader registers files, decides the base of
+every file in the `token.FileSet`, i.e. adds a constant to every position of a package. -/
+open GGV.Model GGV.Model.Prog in
+/-- positions moved by `k` (lines unchanged); 0 stays "no position" -/
+def baseShift (k : Nat) : Relay := ⟨fun x => if x ≤ 0 then x else x + k, fun l => l⟩
+
+open GGV.Model GGV.Model.Prog in
+theorem baseShift_monotone (k : Nat) : (baseShift k).Monotone :=
+  ⟨by intro a b hab; simp only [baseShift]; split <;> split <;> omega, by simp [baseShift], by intro a b e; simpa [baseShift] using e⟩
+
+open GGV.Model GGV.Model.Prog in
+/-- **the diagnostics do not depend on where the package lies in the position space**: with every position moved by
+    `k`, the annotations read are the same and the diagnostics are the same diagnostics (same codes, same order),
+    at the moved positions — whatever else was loaded into the run before the package -/
+theorem base_shift_invariant (k : Nat) (cfg : Cfg) (facts : List (Name × Annotations)) (p : Pkg)
+    (hv : GGV.Props.C16.StartsValid (ignoreOps cfg p)) :
+    (analyze cfg facts (p.mapPos (baseShift k))).ann = (analyze cfg facts p).ann ∧
+    (analyze cfg facts (p.mapPos (baseShift k))).diags =
+      (analyze cfg facts p).diags.map (Diag.mapPos (baseShift k).pos) :=
+  GGV.Props.C12.relayout_invariant (baseShift k) (baseShift_monotone k) cfg facts p hv
+
+open GGV.Model GGV.Model.Prog in
+/-- in particular the codes, in order, are the same -/
+theorem base_shift_codes (k : Nat) (cfg : Cfg) (facts : List (Name × Annotations)) (p : Pkg)
+    (hv : GGV.Props.C16.StartsValid (ignoreOps cfg p)) :
+    (analyze cfg facts (p.mapPos (baseShift k))).diags.map (·.code) = (analyze cfg facts p).diags.map (·.code) := by
+  rw [(base_shift_invariant k cfg facts p hv).2, List.map_map]
+  rfl
+
 end GGV.Props.C11
